@@ -253,6 +253,8 @@ def run(chk):
     chk.trust("python semantics of the stated subset as encoded by pyvc (DESIGN 2.3)")
     chk.trust("z3 5.1.0")
     logger_gate(chk)
+    from . import misc_contracts
+    misc_contracts.logger_methods(chk, "C17")
     under_completed_contract(chk)
     track_flip(chk)
     CC.operation_methods(chk, "C17", want=("C17",))
